@@ -152,6 +152,16 @@ def same_outcome(x, y):
 def judge(case, r):
     """Returns (violation kind | None, text)."""
     a, b, con, coff = r["a"], r["b"], r["c_on"], r["c_off"]
+    # the compiler itself panicked on one rendering (isolated by the harness)
+    if con["t"] == "compile_panic" and coff["t"] in ("v", "panic"):
+        return "fold_on_ne_off", (f"inlined literals: the compiler panics with const folding on ({con['msg'][:160]}) "
+                                  f"while without folding the program gives {brief(coff)}")
+    if a["t"] == "compile_panic" and b["t"] == "v":
+        return "const_fail_runtime_value", f"const evaluation panics ({a['msg'][:160]}) but run time returns {b['v']}"
+    if "compile_panic" in (a["t"], b["t"], con["t"], coff["t"]):
+        log(f"[C07] diagnostic: compiler panic outside the property's scope on `{r['src']}`: "
+            f"a={a['t']} b={b['t']} c_on={con['t']} c_off={coff['t']}")
+        return None, ""
     for name, o in (("b", b), ("c_on", con), ("c_off", coff)):
         if o["t"] == "error":
             raise ToolError(f"runner error in {name} of `{r['src']}`: {o['msg']}")
@@ -175,6 +185,8 @@ def brief(o):
 
 def spec_agrees(case, r):
     exp, b = case["exp"], r["b"]
+    if b["t"] == "compile_panic":
+        return True
     if exp["t"] == "v":
         return b["t"] == "v" and [str(centre(zint(z))) for z in exp["v"]] == b["v"]
     return b["t"] == "panic"
@@ -192,6 +204,9 @@ def evaluate(chk, cases_path, tag):
     for r in read_ndjson(out):
         if "summary" in r:
             summary = r["summary"]
+            continue
+        if "skipped" in r:
+            stats["skipped_batch_panics"] = stats.get("skipped_batch_panics", 0) + 1
             continue
         case = cases[r["id"]]
         stats["compared"] += 1
@@ -233,7 +248,19 @@ def report(chk, viol):
         else:
             ks = base[2]
         groups.setdefault(ks, []).append((text, case, r))
-    for ks, items in list(groups.items())[:MAX_REPORTS]:
+    # report round-robin over the violation kinds so that no kind is crowded out by another
+    by_kind = {}
+    for ks in groups:
+        by_kind.setdefault(json.loads(ks)["kind"], []).append(ks)
+    order = []
+    while any(by_kind.values()):
+        for kind in sorted(by_kind):
+            if by_kind[kind]:
+                order.append(by_kind[kind].pop(0))
+    if len(order) > MAX_REPORTS:
+        log(f"[C07] {len(order)} violation classes; reporting the first {MAX_REPORTS}")
+    for ks in order[:MAX_REPORTS]:
+        items = groups[ks]
         text, case, r = items[0]
         chk.violation(json.loads(ks),
                       {"cases": [{"e": c["e"], "ty": c["ty"], "exp": c["exp"], "src": x["src"], "observed":
@@ -285,6 +312,7 @@ def main(tier, replay=None):
         "exhaustive_scope": "every expression of ConstEval's bounded grammar (depth <= 2) x its boundary operand sets",
         "expressions": n, "predicted_failures": predicted_fail, **stats,
         "distinct_nontrivial": predicted_fail,
-        "distinct_nontrivial_rule": "expressions whose denotation is a failure (overflow / division by zero / failed "
-                                    "conversion somewhere in the tree)",
+        "rule": "TLC enumerates each expression of the grammar once (distinct states); non-trivial = its denotation is "
+                "a failure (overflow / division by zero somewhere in the tree)",
+        "evaluations": 4 * n,
     })
